@@ -89,7 +89,10 @@ func parseValueFromEventKey(key []byte) (string, error) {
 func lookForHeight(conditions []query.Condition) (int64, bool) {
 	for _, c := range conditions {
 		if c.CompositeKey == types.BlockHeightKey && c.Op == query.OpEqual {
-			return c.Operand.(int64), true
+			// "block.height='5'" has a string operand: not a height lookup (and must not panic)
+			if h, isInt := c.Operand.(int64); isInt {
+				return h, true
+			}
 		}
 	}
 
